@@ -39,6 +39,7 @@ def run_one(b, tier):
         env = dict(os.environ)
         env["DASHU_REPO"] = dst
         env["VERIF_OUT"] = os.path.join(tmp, "out")
+        env["VERIF_CACHE"] = os.path.join(tmp, "cache")     # facts of the scratch tree die with it
         p = subprocess.run([os.path.join(VERIF, "check"), b["prop"], "--tier", tier], cwd=VERIF, env=env,
                            stdout=subprocess.PIPE, stderr=subprocess.STDOUT, text=True)
         out = p.stdout
